@@ -187,14 +187,22 @@ def inner_script(s: Spend, kind, segwit):
     raise ValueError(kind)
 
 
+FORCE = {}
+
+
+def _pick(rng, key, choices):
+    """`rng.choice(choices)`, unless `FORCE` pins this decision (the fixed script-path cases of `run`)"""
+    return FORCE[key] if key in FORCE else rng.choice(choices)
+
+
 def build(rng):
     """one spend: (label, scriptSig, scriptPubKey, witness bottom-first, amount, lt, seq, ver)"""
     lt, seq, ver = rng.choice([(0, 0xFFFFFFFF, 1), (0, 0xFFFFFFFE, 2), (10, 5, 2),
                                (rng.choice(G.LOCKTIMES), rng.choice(G.SEQUENCES), rng.choice(G.VERSIONS))])
     s = Spend(rng, lt, seq, ver, rng.choice([0, 1, 12345678, 21 * 10**14]))
-    form = rng.choice(["p2pk", "p2pkh", "ms", "p2sh", "p2sh", "p2wpkh", "p2wpkh", "p2wsh", "p2wsh", "p2sh-p2wpkh",
-                       "p2sh-p2wsh", "p2sh-p2wsh", "p2tr-key", "p2tr-key", "p2tr-script", "p2tr-script", "p2tr-script",
-                       "future", "bare-free"])
+    form = _pick(rng, "form", ["p2pk", "p2pkh", "ms", "p2sh", "p2sh", "p2wpkh", "p2wpkh", "p2wsh", "p2wsh", "p2sh-p2wpkh",
+                                "p2sh-p2wsh", "p2sh-p2wsh", "p2tr-key", "p2tr-key", "p2tr-script", "p2tr-script", "p2tr-script",
+                                "future", "bare-free"])
     ss, wit = b"", []
     label = form
     if form == "p2pk":
@@ -247,8 +255,8 @@ def build(rng):
             label += "+annex"
     elif form == "p2tr-script":
         q = KEYS[3]
-        kind = rng.choice(["checksig", "checksig", "csa", "free", "success", "leafver", "ff", "codesep", "upgkey", "budget",
-                           "locktime"])
+        kind = _pick(rng, "kind", ["checksig", "checksig", "csa", "free", "success", "leafver", "ff", "codesep", "upgkey", "budget",
+                                   "locktime"])
         leaf_ver = 0xC0
         k1, k2 = KEYS[0], KEYS[1]
         if kind in ("checksig", "upgkey"):
@@ -283,14 +291,16 @@ def build(rng):
         s.spk = b"\x51" + G.push(qx)
         control = bytes([leaf_ver + parity]) + xonly(q) + b"".join(path)
         annex = b"\x50" + rand_bytes(rng, rng.randrange(3)) if rng.random() < 0.2 else b""
+        if "annex" in FORCE:
+            annex = b"\x50\x01\x02" if FORCE["annex"] else b""
         items = []
         if kind in ("checksig", "upgkey", "codesep"):
             pos = 2 if kind == "codesep" else 0xFFFFFFFF
             ext = lh + b"\x00" + pos.to_bytes(4, "little")
-            items = [s.schnorr(k1, 1, annex, ext, rng.choice(SCHNORR_MUTS))]
+            items = [s.schnorr(k1, 1, annex, ext, _pick(rng, "mut", SCHNORR_MUTS))]
         elif kind == "csa":
             ext = lh + b"\x00" + (0xFFFFFFFF).to_bytes(4, "little")
-            items = [s.schnorr(k2, 1, annex, ext, rng.choice(SCHNORR_MUTS)), s.schnorr(k1, 1, annex, ext, rng.choice(SCHNORR_MUTS))]
+            items = [s.schnorr(k2, 1, annex, ext, _pick(rng, "mut", SCHNORR_MUTS)), s.schnorr(k1, 1, annex, ext, _pick(rng, "mut", SCHNORR_MUTS))]
         elif kind == "budget":
             items = [rng.choice([b"\x01", b"\x01", b""]) for _ in range(nsig)]
             if rng.random() < 0.5:
@@ -320,7 +330,7 @@ def build(rng):
             label += "-p2sh"
 
     # structural mutations
-    m = rng.choice(["none"] * 10 + ["ss_extra_push", "ss_pushdata1", "ss_nonempty", "wit_unexpected", "wit_extra", "wit_drop",
+    m = _pick(rng, "m", ["none"] * 10 + ["ss_extra_push", "ss_pushdata1", "ss_nonempty", "wit_unexpected", "wit_extra", "wit_drop",
                                     "wit_script_flip", "ctrl_flip", "ctrl_trunc", "oversize", "ss_nonpush", "ss_extra_tail",
                                     "prog_flip", "ss_empty", "ss_pushdata2", "parity_flip", "annex_like", "annex_like"])
     if m == "ss_extra_push":
@@ -474,10 +484,24 @@ def run(ctx, spec):
         lines.append(f"verify {fl} {hx(ss)} {hx(spk)} {SP.hexlist(wit)} 0 4294967295 1 {amount} ask")
         ctx.count("verify.forms", label.split("/")[0])
     flags = flag_choices(rng)
-    for _ in range(ctx.n(700, 20000)):
+    # fixed cases first: the unmutated taproot script path with valid signatures, every signing leaf kind (OP_CHECKSIG,
+    # OP_CODESEPARATOR at op code position 2 before it, OP_CHECKSIGADD) with and without an annex, under the consensus flags
+    fixed = [{"form": "p2tr-script", "kind": k, "annex": a, "mut": "valid", "m": "none"}
+             for k in ("checksig", "codesep", "csa") for a in (False, True)]
+    for j in range(ctx.n(700, 20000)):
+        FORCE.clear()
+        if j < len(fixed):
+            FORCE.update(fixed[j])
         label, ss, spk, wit, amount, lt, seq, ver = build(rng)
-        fl = rng.choice(flags) if rng.random() < 0.75 else closed(CONSENSUS)
+        FORCE.clear()
+        fl = (rng.choice(flags) if rng.random() < 0.75 else closed(CONSENSUS)) if j >= len(fixed) else closed(CONSENSUS)
         lines.append(f"verify {fl} {hx(ss)} {hx(spk)} {SP.hexlist(wit)} {lt} {seq} {ver} {amount} ask")
         ctx.count("verify.forms", label.split("/")[0])
         ctx.count("verify.mutations", label.split("/")[1])
+        if label.startswith("p2tr-script") and label.split("/")[1] == "none":
+            # taproot script path, unmutated: is an annex present, where does the last executed OP_CODESEPARATOR stand,
+            # and what does the real engine say
+            has_annex = len(wit) >= 2 and wit[-1][:1] == b"\x50"
+            io = SP.impl_verify(lines[-1].split(" "))
+            ctx.count("verify.taproot-script-path", f"{label.split('/')[0].split(':')[-1]}{'+annex' if has_annex else ''}:{io}")
     spec(ctx, "core.verify_input", lines, classify)
